@@ -201,7 +201,13 @@ class PassHarness:
                     info['imm'] = e
                     args.append(e)
             elif p == 'expr':
-                args.append(builder.mk_expr('cexpr'))
+                if variant == 'non-arithmetic':
+                    args.append(builder.mk_expr('cexpr'))
+                else:
+                    # a constant's expression as parse_item builds it: Arithmetic(<text>)
+                    ar = it.instantiate(self.h.env.vars['Arithmetic'], [I.Sym('str', z3.Int('cexpr_text'))], {})
+                    info['cexpr'] = ar
+                    args.append(ar)
             elif p == 'is_auipc_jump':
                 # class invariant: only the jalr half of a far call/tail carries the flag (established by
                 # transform_pseudo_instructions, see pseudo.constructed_item_obligations; parse_item leaves the default)
@@ -357,7 +363,18 @@ def make_hooks(builder):
             return StrOfInt(v)
         return None
 
-    return {'len': b_len, 'opaque_attr': opaque_attr, 'external': external, 'str_of': str_of, 'mutation': None}
+    parsed = {}
+
+    def int_of_str(it, s_, base):
+        key = s_.t.get_id()
+        if key not in parsed:
+            parsed[key] = (z3.Bool('is_int_%s' % s_.t), I.Sym('int', z3.Int('int_%s' % s_.t)))
+        ok, v = parsed[key]
+        if not it.run.branch(ok):
+            I.py_raise('ValueError', 'invalid literal for int()')
+        return v
+
+    return {'len': b_len, 'opaque_attr': opaque_attr, 'external': external, 'str_of': str_of, 'mutation': None, 'int_of_str': int_of_str}
 
 
 # ---------------------------------------------------------------------------
@@ -367,6 +384,78 @@ def _t(it_dom, v):
     if isinstance(v, I.Sym):
         return v.t
     return z3.IntVal(int(v))
+
+
+def constant_goals(ph, st):
+    """resolve_constants on a Constant that is accepted (C11 O1): exactly one store constants[name] = value, value being the
+    item's own expression evaluated with position None in ChainMap(constants, REGISTERS) - earlier constants and register
+    names, no labels; the item itself is dropped"""
+    g = {}
+    w = st.consts.writes
+    nm = st.item.fields.get('name')
+    kid = nm.t if isinstance(nm, I.Sym) else (z3.IntVal(I.str_id(nm)) if isinstance(nm, str) else None)
+    evs = [e for e in st.builder.evals if isinstance(e[4], I.Sym)]
+    ok = len(w) == 1 and kid is not None and len(evs) == 1 and len(st.appended) == 0
+    g['constant-defined-once-and-dropped'] = z3.BoolVal(bool(ok))
+    if ok:
+        (e, pos, env, line, res) = evs[0]
+        g['constant-value-is-its-expression'] = z3.And(w[0][0] == kid, w[0][1] == res.t)
+        regs = ph.h.env.vars['REGISTERS']
+        env_ok = isinstance(env, I.ChainMapVal) and len(env.maps) == 2 and env.maps[0] is st.consts and env.maps[1] is regs and pos is None
+        g['constant-environment-is-earlier-constants-over-register-names'] = z3.BoolVal(bool(env_ok))
+        g['constant-error-line-is-item-line'] = z3.BoolVal(same_line_obj(line, st.item.fields.get('line')))
+        # names that shadow a register or are numbers were refused before this point
+        if isinstance(nm, I.Sym):
+            g['constant-name-is-not-a-register-name'] = z3.And(*[nm.t != I.str_id(k) for k in regs if isinstance(k, str)])
+    return g
+
+
+def alias_goals(ph, st):
+    """resolve_register_aliases (C11 O3): a register field that names a constant is replaced by that constant's value,
+    every other field is carried over, the class is kept; an item without such a field is passed through untouched"""
+    g = {}
+    if len(st.appended) != 1:
+        g['alias-one-item-out'] = z3.BoolVal(False)
+        return g
+    new = st.appended[0]
+    regs = st.info.get('regs', {})
+    if new is st.item:
+        # untouched: no register field is a constant on this path
+        g['alias-untouched-means-no-field-is-a-constant'] = z3.And(*[z3.Not(z3.And(r.is_str, st.consts.has0(r.sid))) for r in regs.values()]) if regs else z3.BoolVal(True)
+        return g
+    ok = new.cls is st.item.cls and list(new.fields) == list(st.item.fields)
+    conds = []
+    if ok:
+        for k, v in st.item.fields.items():
+            nv = new.fields[k]
+            if k in regs:
+                r = regs[k]
+                isconst = z3.And(r.is_str, st.consts.has0(r.sid))
+                if isinstance(nv, W.ConstValue):
+                    conds.append(z3.And(isconst, nv.t == st.consts.val0(r.sid)))
+                elif nv is v:
+                    conds.append(z3.Not(isconst))
+                else:
+                    ok = False
+            elif k == 'line':
+                ok = ok and same_line_obj(nv, v)
+            else:
+                ok = ok and same_val(nv, v)
+    g['alias-rebuilt-item-differs-only-in-resolved-register-fields'] = z3.And(z3.BoolVal(bool(ok)), *conds)
+    return g
+
+
+def same_val(a, b):
+    """identity up to copy.deepcopy"""
+    if a is b:
+        return True
+    if isinstance(a, I.SObj) and isinstance(b, I.SObj):
+        return getattr(a, 'copied_from', a) is getattr(b, 'copied_from', b)
+    if isinstance(a, I.Sym) and isinstance(b, I.Sym):
+        return a.t.eq(b.t)
+    if isinstance(a, (int, str, bool, tuple)) and type(a) is type(b):
+        return a == b
+    return False
 
 
 def immediate_goals(ph, st, P):
@@ -391,7 +480,7 @@ def immediate_goals(ph, st, P):
     g['imm-error-line-is-item-line'] = z3.BoolVal(same_line_obj(line, st.item.fields.get('line')))
     nv = new.fields.get('imm')
     g['imm-baked-is-the-evaluated-value'] = (nv.t == res.t) if isinstance(nv, I.Sym) else z3.BoolVal(False)
-    others = all((k in new.fields) and (new.fields[k] is v or (k == 'line' and same_line_obj(new.fields[k], v)))
+    others = all((k in new.fields) and (same_val(new.fields[k], v) or (k == 'line' and same_line_obj(new.fields[k], v)))
                  for k, v in st.item.fields.items() if k != 'imm')
     g['other-fields-carried-over'] = z3.BoolVal(bool(others) and list(new.fields) == list(st.item.fields))
     return g
@@ -458,7 +547,12 @@ def layout_obligations(ctx, ph, cls, name, paths, tag, replay):
             goals['label-defined-at-position'] = z3.And(w[0][0] == kid, w[0][1] == P) if (len(w) == 1 and kid is not None) else z3.BoolVal(False)
         else:
             goals['labels-no-store'] = z3.BoolVal(len(st.labels.writes) == 0)
-        goals['constants-no-store'] = z3.BoolVal(len(st.consts.writes) == 0)
+        if ph.pass_name == 'resolve_constants' and cls.name == 'Constant':
+            goals.update(constant_goals(ph, st))
+        else:
+            goals['constants-no-store'] = z3.BoolVal(len(st.consts.writes) == 0)
+        if ph.pass_name == 'resolve_register_aliases':
+            goals.update(alias_goals(ph, st))
         if ph.pass_name == 'resolve_immediates' and 'imm' in st.item.fields:
             goals.update(immediate_goals(ph, st, P))
         for gname, g in goals.items():
